@@ -21,16 +21,16 @@ import (
 const ModPath = "github.com/youchainhq/go-youchain"
 
 type Loaded struct {
-	Prog     *ssa.Program
-	Pkg      *ssa.Package
-	Fset     *token.FileSet
-	FileDirs []dirLine            // file-level directives (legacy: unused)
-	FileOf   map[string]string    // harness function -> file
-	DirsOf   map[string][]dirLine // file -> file-level directives
-	FuncDirs map[string][]dirLine // per harness function
-	Modes    map[string]string    // per harness function: "bv W=520" / "int"
-	Overlay  map[string][]byte
-	LoadTime float64
+	Prog      *ssa.Program
+	Pkg       *ssa.Package
+	Fset      *token.FileSet
+	FileDirs  []dirLine            // file-level directives (legacy: unused)
+	FileOf    map[string]string    // harness function -> file
+	DirsOf    map[string][]dirLine // file -> file-level directives
+	FuncDirs  map[string][]dirLine // per harness function
+	Modes     map[string]string    // per harness function: "bv W=520" / "int"
+	Overlay   map[string][]byte
+	LoadTime  float64
 	ReachTags map[string][]string
 }
 
